@@ -79,7 +79,7 @@ def _interleaved(hist):
     return len(set(hist)) >= 2
 
 
-def explore(drv, job, k=None, cap=4000, H=None, audit_every=0, order=None, max_depth=120):
+def explore(drv, job, k=None, cap=4000, H=None, audit_every=0, order=None, max_depth=120, depth_is_bound=False):
     res = Result(job)
     nuser = sum(len(s) for s in (job.get("scripts") or [[], []]))
     if H is None:
@@ -175,7 +175,8 @@ def explore(drv, job, k=None, cap=4000, H=None, audit_every=0, order=None, max_d
                 break
             ns = since_user + 1 if (a in ENGINE and users_done[tsid]) else 0
             if len(nh) >= max_depth:
-                res.capped = True       # not expanded further; reported as capped
+                if not depth_is_bound:
+                    res.capped = True       # not expanded further; reported as capped
                 live = False
                 continue
             if k is not None and ns > H:
